@@ -2,6 +2,8 @@ package drive
 
 import (
 	"fmt"
+
+	"github.com/ostafen/clover/v2/document"
 	"sort"
 	"strings"
 	"time"
@@ -33,6 +35,8 @@ type SeqCfg struct {
 	ForceFields map[string]gen.Profile
 	BigPad     bool
 	AuditAfterIndexOps bool
+	SupplyIDs  bool // never let clover generate ids (runs that must be reproducible across handles)
+	AfterClose bool // finish with Close and a battery of calls on the closed handle
 }
 
 var baseWeights = map[string]int{
@@ -138,14 +142,14 @@ func (d *seqRun) newDocs(coll string, n int) []map[string]any {
 	sch := d.schemaOf(coll)
 	docs := make([]map[string]any, n)
 	supply := d.r.Intn(3) // 0: generated ids, 1: supplied, 2: mixed
-	if d.cfg.SharedIDs {
+	if d.cfg.SharedIDs || d.cfg.SupplyIDs {
 		supply = 1
 	}
 	for i := range docs {
 		docs[i] = d.r.Doc(sch)
 		if supply == 1 || (supply == 2 && d.r.Bool()) {
 			docs[i]["_id"] = d.freshID()
-		} else if d.r.P(10) {
+		} else if d.r.P(10) && !d.cfg.SupplyIDs {
 			docs[i]["_id"] = "" // treated as absent
 		}
 		if d.r.P(2) {
@@ -328,7 +332,11 @@ func (d *seqRun) step() (written string, wasWrite bool) {
 	case "Save":
 		c := d.pickColl()
 		doc := d.r.Doc(d.schemaOf(c))
-		switch d.r.Intn(4) {
+		k := d.r.Intn(4)
+		if d.cfg.SupplyIDs && k == 0 {
+			k = 1
+		}
+		switch k {
 		case 0: // no id: insert
 		case 1:
 			doc["_id"] = d.freshID()
@@ -469,15 +477,22 @@ func (s *S) CreateCollectionByQuery(dst string, q *model.Query) {
 
 // RunSeq is the generic sequential differential history.
 func RunSeq(c *core.Ctx, cfg *SeqCfg) {
-	r := c.R
-	backend := gen.Pick(r, cfg.Backends)
+	backend := gen.Pick(c.R, cfg.Backends)
+	runSeqOn(c, cfg, backend, c.R, false)
+}
+
+// runSeqOn runs one history on a given backend; with transcript it returns
+// every outcome and every result sequence, for cross-backend comparison.
+func runSeqOn(c *core.Ctx, cfg *SeqCfg, backend string, r *gen.Rng, transcript bool) []string {
 	h, err := Open(c, backend, "")
 	if err != nil {
 		c.Violate("open-error", "opening %s failed: %v", backend, err)
-		return
+		return nil
 	}
 	defer h.Destroy()
 	d := &seqRun{S: NewS(c, h), cfg: cfg, r: r}
+	d.S.r = r
+	d.recording = transcript
 	d.opCells = cfg.Focus == "ids" || cfg.Focus == "colls" || cfg.Focus == "indexes"
 	for k := range cfg.W {
 		if strings.HasSuffix(k, "Pct") {
@@ -584,9 +599,82 @@ func RunSeq(c *core.Ctx, cfg *SeqCfg) {
 	if !d.failed {
 		d.Audit(lastOp)
 	}
-	if !d.failed {
+	if !d.failed && cfg.AfterClose {
+		d.afterClose()
+	}
+	if !d.failed && !transcript {
 		c.Sample(map[string]any{"backend": backend, "operations": d.ops, "history_head": head(c.Hist, 12)})
 	}
+	return d.transcript
+}
+
+// afterClose closes the handle and calls every kind of operation on it: each
+// must return (an error or a result), never panic or block.
+func (d *seqRun) afterClose() {
+	name, _ := d.existingColl()
+	id := d.r.UUID()
+	q := (&model.Query{Coll: name}).ToClover()
+	doc := map[string]any{"_id": id, "a": int64(1)}
+	for round := 0; round < 2; round++ {
+		err := d.h.Close()
+		if round == 1 {
+			err = Do(func() error { return d.h.DB.Close() }) // a second Close
+		}
+		d.closedCall("Close", err)
+		calls := []struct {
+			n string
+			f func() error
+		}{
+			{"CreateCollection", func() error { return d.h.DB.CreateCollection("zz") }},
+			{"DropCollection", func() error { return d.h.DB.DropCollection(name) }},
+			{"HasCollection", func() error { _, e := d.h.DB.HasCollection(name); return e }},
+			{"ListCollections", func() error { _, e := d.h.DB.ListCollections(); return e }},
+			{"CreateIndex", func() error { return d.h.DB.CreateIndex(name, "a") }},
+			{"DropIndex", func() error { return d.h.DB.DropIndex(name, "a") }},
+			{"HasIndex", func() error { _, e := d.h.DB.HasIndex(name, "a"); return e }},
+			{"ListIndexes", func() error { _, e := d.h.DB.ListIndexes(name); return e }},
+			{"Insert", func() error { return d.h.DB.Insert(name, model.NewDoc(doc)) }},
+			{"InsertOne", func() error { _, e := d.h.DB.InsertOne(name, model.NewDoc(doc)); return e }},
+			{"Save", func() error { return d.h.DB.Save(name, model.NewDoc(doc)) }},
+			{"ReplaceById", func() error { return d.h.DB.ReplaceById(name, id, model.NewDoc(doc)) }},
+			{"UpdateById", func() error { return d.h.DB.UpdateById(name, id, (&Upd{Set: map[string]any{"a": int64(2)}}).callback(new([]updCall))) }},
+			{"Update", func() error { return d.h.DB.Update(q, map[string]any{"a": int64(2)}) }},
+			{"UpdateFunc", func() error { return d.h.DB.UpdateFunc(q, (&Upd{Set: map[string]any{"a": int64(2)}}).callback(new([]updCall))) }},
+			{"Delete", func() error { return d.h.DB.Delete(q) }},
+			{"DeleteById", func() error { return d.h.DB.DeleteById(name, id) }},
+			{"FindAll", func() error { _, e := d.h.DB.FindAll(q); return e }},
+			{"FindFirst", func() error { _, e := d.h.DB.FindFirst(q); return e }},
+			{"FindById", func() error { _, e := d.h.DB.FindById(name, id); return e }},
+			{"Count", func() error { _, e := d.h.DB.Count(q); return e }},
+			{"Exists", func() error { _, e := d.h.DB.Exists(q); return e }},
+			{"ForEach", func() error { return d.h.DB.ForEach(q, func(*document.Document) bool { return true }) }},
+			{"ExportCollection", func() error { return d.h.DB.ExportCollection(name, d.c.Scratch+"/closed-export.json") }},
+			{"ImportCollection", func() error { return d.h.DB.ImportCollection("zz2", d.c.Scratch+"/nonexistent.json") }},
+			{"CreateCollectionByQuery", func() error { return d.h.DB.CreateCollectionByQuery("zz3", q) }},
+		}
+		for _, cl := range calls {
+			if d.failed {
+				return
+			}
+			d.closedCall(cl.n, Do(cl.f))
+		}
+	}
+}
+
+func (d *seqRun) closedCall(n string, err error) {
+	d.c.Eval(1)
+	if pe, ok := IsPanic(err); ok {
+		d.c.Log("%s after Close -> PANIC %v", n, pe.Val)
+		d.viol(PanicSig(pe)+":after-close", "%s on a closed %s handle panicked: %v\n%s", n, d.h.Backend, pe.Val, trim(pe.Stack, 25))
+		return
+	}
+	cls := "error"
+	if err == nil {
+		cls = "ok"
+	}
+	d.c.Log("%s after Close -> %s", n, cls)
+	d.tr("%s after Close -> %s", n, cls)
+	d.c.Cell("after-close|%s|%s|%s", n, cls, backendClass(d.h.Backend))
 }
 
 func head(h []string, n int) []string {
